@@ -5,6 +5,8 @@ CONSTANTS
   Specs <- SpecsC
   Msgs <- MsgsC
   Apis = {"wait", "exec"}
+  Timeouts = {"short"}
+  MaxElapse = 0
   MaxFeeds = 2
   MaxBatch = 2
   MaxCancel = 0
@@ -17,6 +19,9 @@ CONSTANTS
   AllFieldMatchers = FALSE
   TicketBeforeRegister = TRUE
   LiveListAtCompletion = TRUE
+  ReleaseWhenSendCancelled = TRUE
+  TimeoutForwarded = TRUE
+  RegisterAfterSend = TRUE
 INVARIANT TypeOK
 INVARIANT OnlyMatching
 INVARIANT FirstMatching
